@@ -143,3 +143,77 @@ Proof.
     replace (is_nil (below ++ [mkSF ps])) with false in IH by (destruct below; reflexivity).
     apply IH; [exact Hrest|lia].
 Qed.
+
+(* ---- standard ebp frames ---- *)
+Lemma prog_ebp_b_eq : prog_ebp_frame_b = prog_ebp_frame.
+Proof. reflexivity. Qed.
+
+Lemma fd_step_ebp_ok : forall mem below callee r i fs ra bp',
+  w_thing i = ProgramString prog_ebp_frame_b ->
+  win_frame_size i (spec_gcps below) = Some fs -> 0 <= fs -> x_esp r + fs < 2 ^ 32 ->
+  0 <= x_esp r < 2 ^ 32 -> 0 <= x_ebp r -> x_ebp r + 8 < 2 ^ 32 ->
+  mem (x_ebp r + 4) = Some ra -> 0 <= ra < 2 ^ 32 -> mem (x_ebp r) = Some bp' -> 0 <= bp' < 2 ^ 32 ->
+  win_xstep mem below callee r i = Some (mkX ra (x_ebp r + 8) bp').
+Proof.
+  intros mem below callee r i fs ra bp' Hth Hfs Hfs0 Hss Hesp Hbp0 Hbp8 Hra Hra32 Hold Hold32.
+  unfold win_xstep. rewrite Hth, prog_ebp_b_eq.
+  set (E := frames_env _ mem 0 below callee).
+  assert (Eesp : e_callee E N_esp = Some (x_esp r)) by reflexivity.
+  assert (Eebp : e_callee E N_ebp = Some (x_ebp r)) by reflexivity.
+  assert (Eebx : e_callee E N_ebx = None) by reflexivity.
+  assert (Egc : e_gcps E = spec_gcps below) by (unfold E, frames_env; cbn [e_gcps]; apply walker_gcps_spec).
+  assert (Efs : win_frame_size i (e_gcps E) = Some fs) by (rewrite Egc; exact Hfs).
+  assert (Wesp : wrap32 (x_esp r) = x_esp r) by (apply wrap32_small; lia).
+  assert (Webp : wrap32 (x_ebp r) = x_ebp r) by (apply wrap32_small; lia).
+  assert (Hi : exists m, win_initial_vars E i prog_ebp_frame = Some m).
+  { unfold win_initial_vars. rewrite Eesp, Eebp, Efs, Eebx. change (contains_at prog_ebp_frame) with false. cbv iota.
+    unfold checked_add. rewrite Wesp. replace (x_esp r + fs <? 2 ^ 32) with true by (symmetry; apply Z.ltb_lt; lia).
+    eexists; reflexivity. }
+  destruct Hi as [m Hi].
+  destruct (initial_vars_spec _ _ _ _ Hi) as (esp' & ebp' & fs' & A1 & A2 & _ & _ & _ & V1 & V2 & V3 & _).
+  rewrite Eesp in A1. rewrite Eebp in A2. inversion A1; inversion A2; subst esp' ebp'.
+  rewrite Webp in V2. rewrite Eebx in V3. cbn [option_map] in V3.
+  destruct (initial_no_esi_edi_eip _ _ _ _ Hi) as (N1 & N2 & _ & _).
+  assert (Hm1 : e_mem E (wrap32 (x_ebp r + 4)) = Some ra) by (rewrite wrap32_small by lia; exact Hra).
+  assert (Hm2 : e_mem E (x_ebp r) = Some bp') by exact Hold.
+  pose proof (ebp_frame_vars Debug E i m _ ra bp' Hi V2 Hm1 Hm2) as Hf.
+  set (m' := vset D_esp _ _) in Hf.
+  assert (G1 : vget D_eip m' = Some ra) by (unfold m'; vget_through; rewrite (wrap32_small ra) by lia; reflexivity).
+  assert (G2 : vget D_esp m' = Some (x_ebp r + 8)) by (unfold m'; vget_through; rewrite wrap32_small by lia; reflexivity).
+  assert (G3 : vget D_ebp m' = Some bp') by (unfold m'; vget_through; rewrite (wrap32_small bp') by lia; reflexivity).
+  assert (G4 : vget D_ebx m' = None) by (unfold m'; vget_through; exact V3).
+  assert (G5 : vget D_esi m' = None) by (unfold m'; vget_through; exact N1).
+  assert (G6 : vget D_edi m' = None) by (unfold m'; vget_through; exact N2).
+  unfold walk_win_framedata. rewrite Hf. cbn [obind].
+  set (s0 := clear_all (mock_ops 4) win_clear_names m_init).
+  unfold win_outputs. cbn [set_outputs]. rewrite G1, G2, G3, G4, G5, G6.
+  rewrite (mock_set_ok s0 N_eip ra eq_refl) by lia.
+  rewrite (mock_set_ok _ N_esp (x_ebp r + 8) eq_refl Hbp8).
+  rewrite (mock_set_ok _ N_ebp bp' eq_refl) by lia.
+  cbn [m_regs]. unfold upd.
+  change (beq N_eip N_ebp) with false. change (beq N_eip N_esp) with false. change (beq N_eip N_eip) with true.
+  change (beq N_esp N_ebp) with false. change (beq N_esp N_esp) with true. change (beq N_ebp N_ebp) with true.
+  reflexivity.
+Qed.
+
+Theorem ebp_recovers_chain : forall mem in_stack lookup (acts : list act_bp) below eip esp ebp,
+  ebp_layout mem in_stack lookup (is_nil below) (spec_gcps below) eip esp ebp acts ->
+  win_walk (length acts) mem in_stack lookup below (mkX eip esp ebp) = ebp_chain ebp acts.
+Proof.
+  intros mem in_stack lookup acts. induction acts as [|[[[i ps] ra] bp'] rest IH]; intros below eip esp ebp HL.
+  - reflexivity.
+  - cbn [ebp_layout] in HL.
+    destruct HL as (Hl & Hth & His & (fs & Hfs & Hfs0 & Hss) & Hesp & Hgrow & Hbp8 & Hbp0 & Hra & Hra32 & Hold & Hold32 & Hrest).
+    cbn [length win_walk ebp_chain x_esp x_eip].
+    replace (match below with [] => true | _ :: _ => in_stack esp end) with true
+      by (destruct below; [reflexivity|symmetry; apply His; reflexivity]).
+    rewrite Hl.
+    rewrite (fd_step_ebp_ok mem below (mkSF ps) (mkX eip esp ebp) i fs ra bp'); cbn [x_esp x_ebp x_eip]; try assumption; try lia.
+    replace (ra <? 4096) with false by (symmetry; apply Z.ltb_ge; lia).
+    replace (ebp + 8 <=? esp) with false by (symmetry; apply Z.leb_gt; lia).
+    cbn [orb]. f_equal.
+    specialize (IH (below ++ [mkSF ps]) ra (ebp + 8) bp').
+    rewrite spec_gcps_snoc in IH.
+    replace (is_nil (below ++ [mkSF ps])) with false in IH by (destruct below; reflexivity).
+    apply IH. exact Hrest.
+Qed.
